@@ -87,6 +87,9 @@ func VerifH_http_recv_stream() {
 			errFinal = err
 			break
 		}
+		// between two receives another request uses the byte pool: whatever this stream still needs
+		// must not live in a recycled buffer
+		vfPoolScribble()
 	}
 	if k == 0 || (complete == 0 && cleanEnd) {
 		// empty body: whether the handler sees EOF at once or one body-less first message (carrying the
